@@ -19,13 +19,14 @@ The argument (all proofs in `Lemmas/FolTerm.lean`):
   constants that are already there.
 -/
 import LnnVerif.Lemmas.FolTerm
+import LnnVerif.Lemmas.PendTerm
 import LnnVerif.Props.C06
 
 set_option linter.unusedSectionVars false
 
 namespace LNN
 
-open FolAmount FolFix FolTerm
+open FolAmount FolFix FolTerm PendTerm
 
 variable {ι : Type} [DecidableEq ι] {α : Type} [Field α] [LinearOrder α] [IsStrictOrderedRing α]
 
@@ -99,5 +100,47 @@ example : (fInfer exKB [0, 1] [.up 0, .up 1] [.down 1 none, .down 0 none] (1/10)
     (fun i g hg => mem_CU.mp (exCU ▸ exS_inside i g hg)) 31 33
   · rw [exCU, exS_phi]; simp [exU]; norm_num
   · rw [exCU]; simp [nGroundings, exS, FState.get, exU]
+
+/-! ### the EXECUTED loop: `pInfer`, with grounding propagation through partially quantified sub-formulae
+
+`pInfer` (what the driver runs against the implementation) layers `_Quantifier._add_groundings` /
+`_propagate_groundings` over the plain calls. Its convergence test is the same; pending groundings
+act only by creating world-default rows (which the row count sees) and cannot keep the loop alive.
+Proofs in `Lemmas/PendTerm.lean`. -/
+
+/-- the amount a list of LAYERED calls reports equals the drop of the potential (propagation
+contributes 0: it changes no reading) -/
+theorem C13_layer_amount_eq_potential_drop (kb : FKB ι α) (hw : WorldsInUnit kb) {U : List (ι × Gr)}
+    (hU : U.Nodup) (cs : List (FCall ι)) (p : PState ι α) (hs : SInUnit p.st)
+    (hin : Inside U (runPCalls kb cs p).1.st) :
+    (runPCalls kb cs p).2 = Φ U kb p.st - Φ U kb (runPCalls kb cs p).1.st :=
+  runPCalls_amount_eq kb hw hU cs p hs hin
+
+/-- **the executed first-order `infer()` returns** on every knowledge base over finitely many
+constants, partially quantified operands included, whatever is pending at the start (as long as
+the pending groundings are tuples over the constants) -/
+theorem C06_layer_terminates_constants (kb : FKB ι α) (hw : WorldsInUnit kb) (nodes : List ι)
+    (hnd : nodes.Nodup) (up down : List (FCall ι)) (eps : α) (ar : ι → Nat) (C : List Nat)
+    (hC : C.Nodup) (h0 : 0 ∈ C)
+    (hwf : ∀ c ∈ up ++ down, CallWF kb nodes ar (cnode c))
+    (p : PState ι α) (hs : SInUnit p.st) (hn : SNodup p.st) (hin : SAll (QC nodes ar C) p.st)
+    (hpend : PAll (QC nodes ar C) p)
+    (N fuel : Nat) (hN : Φ (CU nodes ar C) kb p.st + (CU nodes ar C).length < N * eps)
+    (hfuel : (CU nodes ar C).length - nGroundings nodes p.st + N < fuel) :
+    (pInfer kb nodes up down eps fuel p).converged = true :=
+  pInfer_terminates_constants kb hw nodes hnd up down eps ar C hC h0 hwf p hs hn hin hpend N fuel hN hfuel
+
+/-- with a query, the loop converges or leaves through the early exit (which by definition reports
+`converged = false`: `PendTerm.pInferQ_stop_not_converged`) -/
+theorem C06_layer_query_terminates (kb : FKB ι α) (hw : WorldsInUnit kb) (nodes : List ι)
+    (hnd : nodes.Nodup) (up down : List (FCall ι)) (eps : α) {U : List (ι × Gr)} (hU : U.Nodup)
+    (hcl : ∀ c ∈ up ++ down, ∀ q : PState ι α, SInUnit q.st → SNodup q.st → Inside U q.st →
+      Inside U (runPCall kb c q).1.st)
+    (query : Option ι) (p : PState ι α) (hs : SInUnit p.st) (hn : SNodup p.st) (hin : Inside U p.st)
+    (N fuel : Nat) (hN : Φ U kb p.st + U.length < N * eps)
+    (hfuel : U.length - nGroundings nodes p.st + N < fuel) :
+    (pInferQ kb nodes up down eps query fuel p).converged = true ∨
+      fQueryStop kb query (pInferQ kb nodes up down eps query fuel p).state.st = true :=
+  pInferQ_terminates kb hw nodes hnd up down eps hU query hcl p hs hn hin N fuel hN hfuel
 
 end LNN
